@@ -60,8 +60,29 @@ def scopes(rep, idx):
         pops = {n.id for n in g.nodes if n.kind in ("stmt",) and "_scope_stack.pop(" in fg.text(n.id)}
         yields = [n.id for n in g.nodes if n.kind == "stmt" and n.ast is not None and any(isinstance(x, ast.Yield) for x in ast.walk(n.ast))]
         if len(pushes) != 1 or not yields:
-            rep.bad("C17.2", site, f"{name}: push / yield / pop", f"found {len(pushes)} push(es) and {len(yields)} yield(s)")
-            continue
+            # the push/pop may live in a shared private context manager used as `with self._scope(x): yield`
+            helper = None
+            for n in ast.walk(fi.node):
+                if isinstance(n, ast.With) and len(n.items) == 1 and isinstance(n.items[0].context_expr, ast.Call):
+                    cf = n.items[0].context_expr.func
+                    if isinstance(cf, ast.Attribute) and isinstance(cf.value, ast.Name) and cf.value.id == "self" and \
+                            any(isinstance(x, (ast.Yield, ast.YieldFrom)) for b in n.body for x in ast.walk(b)):
+                        helper = idx.lookup_method(fi.cls, cf.attr)
+                        harg = n.items[0].context_expr.args
+            if helper is not None and any("_scope_stack.append(" in ast.unparse(x) for x in ast.walk(helper.node) if isinstance(x, ast.Expr)):
+                ok_arg = len(harg) == 1 and isinstance(harg[0], ast.Name) and harg[0].id == argname
+                rep.form(ok_arg, "C17.2", site, f"{name}: the scope pushed is the caller's {argname} (through {helper.name}())",
+                         f"passes {ast.unparse(harg[0]) if harg else None}", nontrivial=False)
+                fi, site = helper, helper.site
+                fg = ScopeGraph(idx, fi)
+                g = fg.g
+                pushes = [n.id for n in g.nodes if n.kind == "stmt" and "_scope_stack.append(" in fg.text(n.id)]
+                pops = {n.id for n in g.nodes if n.kind in ("stmt",) and "_scope_stack.pop(" in fg.text(n.id)}
+                yields = [n.id for n in g.nodes if n.kind == "stmt" and n.ast is not None and any(isinstance(x, ast.Yield) for x in ast.walk(n.ast))]
+                argname = helper.params[1] if len(helper.params) > 1 else argname
+            if len(pushes) != 1 or not yields:
+                rep.form(False, "C17.2", site, f"{name}: push / yield / pop", f"found {len(pushes)} push(es) and {len(yields)} yield(s)")
+                continue
         # every path from the push to any exit (normal or exceptional) passes a pop
         seen = set()
         work = [s for s, lab in g.succ[pushes[0]]]
@@ -81,9 +102,10 @@ def scopes(rep, idx):
         arg = push.value.args[0] if isinstance(push, ast.Expr) and isinstance(push.value, ast.Call) and push.value.args else None
         rep.check(isinstance(arg, ast.Name) and arg.id == argname, "C17.2", site, f"{name}: the scope pushed is the caller's {argname}",
                   f"pushes {ast.unparse(arg) if arg is not None else None}", nontrivial=False)
-        dom = g.dominators()[pushes[0]]
-        guards = [n for n in g.nodes if n.kind == "test" and n.id in dom]
-        rep.check(bool(guards), "C17.2", site, f"{name}: the {argname} is validated before it is pushed", "no dominating validation", nontrivial=False)
+        if fi.name == name:
+            dom = g.dominators()[pushes[0]]
+            guards = [n for n in g.nodes if n.kind == "test" and n.id in dom]
+            rep.form(bool(guards), "C17.2", site, f"{name}: the {argname} is validated before it is pushed", "no dominating validation", nontrivial=False)
 
 
 class ScopeGraph(apirules.FnGraph):
@@ -120,8 +142,11 @@ def as_memory_map(rep, idx):
               "self.freeze() does not dominate the layout loop")
     L = [x for x in c.t.loops.values()]
     ok = len(L) == 1 and L[0].kind == 'gen' and c.norm(L[0].iter) == c.parse("self._registers.values()") and not L[0].reversed
-    rep.check(ok, "C17.3", site, "registers are laid out in insertion order (dict order of the builder)",
-              f"loop iterates {[ir.show(c.norm(x.iter)) for x in L]}")
+    wrong = None
+    if any(x.reversed or any(y[0] == 'call' and y[1] in (('name', 'sorted'), ('name', 'reversed')) for y in ir.walk(c.norm(x.iter))) for x in L):
+        wrong = "the registers are walked in another order than they were added"
+    rep.form(ok, "C17.3", site, "registers are laid out in insertion order (dict order of the builder)",
+             f"loop iterates {[ir.show(c.norm(x.iter)) for x in L]}", wrong=wrong)
     if not ok:
         return
     lid = L[0].id
